@@ -135,6 +135,16 @@ pub fn run(cx: &mut Ctx) {
                             }
                             cx.cover("oversized_containers", &format!("+{},+{}", xk, xc));
                         }
+                        // a cloned Kdf derives what the original derives
+                        {
+                            let kc = kdf.clone();
+                            if let Some(r) = call(cx, "C12|Kdf::clone+derive_subkey", "Kdf::clone+derive_subkey", case, || kc.derive_subkey::<[u8; 32]>(id)) {
+                                match r {
+                                    Ok(s) => { expect_eq(cx, "C12|Kdf::clone+derive_subkey|mismatch_vs_libsodium", &s, &want, case); }
+                                    Err(e) => cx.violation("C12|Kdf::clone+derive_subkey|unexpected_err", json!({"err":e.to_string()})),
+                                }
+                            }
+                        }
                         let (k2, c2) = kdf.into_parts();
                         expect(cx, "C12|Kdf::into_parts|roundtrip", k2.as_slice() == key && c2.as_slice() == ctx8, case);
                     }
